@@ -59,8 +59,19 @@ where
         Ok(s)
     }
 
-    pub(crate) fn read_exact(&mut self, buffer: &mut [u8]) -> Result<()> {
-        self.input.read_exact(buffer).map_err(to_ase)
+    // Reads exactly `len` bytes into a new buffer. Unlike `read_exact` into a
+    // pre-sized buffer this never allocates more than what the input delivers
+    // (plus `MAX_PREALLOCATION`), however large `len` claims to be.
+    pub(crate) fn read_vec(&mut self, len: usize) -> Result<Vec<u8>> {
+        let mut output = Vec::with_capacity(len.min(MAX_PREALLOCATION));
+        (&mut self.input)
+            .take(len as u64)
+            .read_to_end(&mut output)?;
+        if output.len() != len {
+            Err(std::io::Error::from(std::io::ErrorKind::UnexpectedEof).into())
+        } else {
+            Ok(output)
+        }
     }
 
     pub(crate) fn skip_reserved(&mut self, count: usize) -> Result<()> {
